@@ -2,11 +2,11 @@ package sym
 
 import (
 	"fmt"
-	"time"
 	"go/constant"
 	"go/token"
 	"go/types"
 	"strings"
+	"time"
 
 	"golang.org/x/tools/go/ssa"
 )
@@ -107,8 +107,8 @@ type Machine struct {
 	memo           map[string]*memoEntry
 
 	// statistics
-	Stats Stats
-	funcs map[*ssa.Function]int // functions symbolically executed -> calls
+	Stats          Stats
+	funcs          map[*ssa.Function]int // functions symbolically executed -> calls
 	intrinsicsUsed map[string]int
 
 	errorStringT types.Type
@@ -135,37 +135,38 @@ type Machine struct {
 }
 
 type Options struct {
-	StepBudget   int
-	MaxMergePath int
-	QueryTimeout int // ms
-	Seed         int
-	IntMode      bool
-	NoRegion     bool
-	Merge        bool // merge the paths of every scalar-returning callee into one result (off by default)
-	NoMergeSingle bool // do not even merge calls whose arguments depend on a single 8-bit variable
-	FloatPolicy  string // "", "havoc", "exact"
-	Trace        bool
-	AppendSpare  int // append growth leaves 0..AppendSpare spare slots (nondeterministic)
-	MaxSwitches  int // bound on context switches per path (0 = unbounded)
-	MapOrder     bool // map iteration starts at a nondeterministic rotation
-	NoDomain     bool // disable the byte-domain front solver
-	Thorough     bool // value of verifrt.Thorough()
-	PathSeconds  int  // wall-clock limit per path (default 120)
-	NoSummaries  bool // disable single-variable summaries by exhaustive evaluation
-	NoModels     bool // run the real code instead of the validated models (model validation harnesses)
+	StepBudget     int
+	MaxMergePath   int
+	QueryTimeout   int // ms
+	Seed           int
+	IntMode        bool
+	NoRegion       bool
+	Merge          bool   // merge the paths of every scalar-returning callee into one result (off by default)
+	NoMergeSingle  bool   // do not even merge calls whose arguments depend on a single 8-bit variable
+	FloatPolicy    string // "", "havoc", "exact"
+	Trace          bool
+	AppendSpare    int  // append growth leaves 0..AppendSpare spare slots (nondeterministic)
+	MaxSwitches    int  // bound on context switches per path (0 = unbounded)
+	MapOrder       bool // map iteration starts at a nondeterministic rotation
+	NoDomain       bool // disable the byte-domain front solver
+	Thorough       bool // value of verifrt.Thorough()
+	PathSeconds    int  // wall-clock limit per path (default 120)
+	NoSummaries    bool // disable single-variable summaries by exhaustive evaluation
+	RealAddrString bool // run the real net/netip String methods instead of the opaque stub
+	NoModels       bool // run the real code instead of the validated models (model validation harnesses)
 }
 
 type Stats struct {
-	Paths        int
-	Decisions    int
-	Steps        int64
-	Merges       int
-	MergePaths   int
-	MergeFails   int
-	MemoHits     int
-	Regions      int
-	Infeasible   int
-	Inconclusive int
+	Paths           int
+	Decisions       int
+	Steps           int64
+	Merges          int
+	MergePaths      int
+	MergeFails      int
+	MemoHits        int
+	Regions         int
+	Infeasible      int
+	Inconclusive    int
 	UnknownBranches int
 	UnknownAsserts  int
 	Concretizations int
@@ -186,7 +187,7 @@ type undoRec struct {
 }
 
 type draw struct {
-	varIdx int    // -1 if concrete
+	varIdx int // -1 if concrete
 	w      Sort
 	val    uint64 // concrete value when varIdx == -1
 	what   string
@@ -214,21 +215,21 @@ func NewMachine(p *Program, opts Options) (*Machine, error) {
 	tt0 := NewTermTable()
 	s.TT = tt0
 	m := &Machine{
-		P:          p,
-		tt:         tt0,
-		solver:     s,
-		Opts:       opts,
-		intMode:    opts.IntMode,
-		globals:    map[*ssa.Global]*value{},
-		globalObjs: map[*ssa.Global]*Obj{},
-		inited:     map[*ssa.Package]bool{},
-		constCache: map[*ssa.Const]value{},
-		noMerge:    map[*ssa.Function]bool{},
-		memo:       map[string]*memoEntry{},
-		funcs:      map[*ssa.Function]int{},
-		dom:        newDomState(),
-		pkgSeen:    map[*ssa.Package]bool{},
-		summaries:  map[string]value{},
+		P:              p,
+		tt:             tt0,
+		solver:         s,
+		Opts:           opts,
+		intMode:        opts.IntMode,
+		globals:        map[*ssa.Global]*value{},
+		globalObjs:     map[*ssa.Global]*Obj{},
+		inited:         map[*ssa.Package]bool{},
+		constCache:     map[*ssa.Const]value{},
+		noMerge:        map[*ssa.Function]bool{},
+		memo:           map[string]*memoEntry{},
+		funcs:          map[*ssa.Function]int{},
+		dom:            newDomState(),
+		pkgSeen:        map[*ssa.Package]bool{},
+		summaries:      map[string]value{},
 		intrinsicsUsed: map[string]int{},
 	}
 	if rp := p.SSAPkgs["runtime"]; rp != nil {
